@@ -56,7 +56,7 @@ static bool seq_parse(const std::string& txt, Seq& s) {
 
 // ---------------------------------------------------------------------------------------------
 struct Verdict { bool failed = false; std::string sig, msg; uint64_t features = 0; };
-enum : uint64_t { FT_DEL_INS = 1, FT_CLEAR_INS = 2, FT_BIG = 4, FT_COPY_NONEMPTY = 8, FT_ODDCOLS = 16, FT_SOLVE_FULL = 32, FT_SOLVE_DEF = 64, FT_SOLVE_SWAP = 128 };
+enum : uint64_t { FT_DEL_INS = 1, FT_CLEAR_INS = 2, FT_BIG = 4, FT_COPY_NONEMPTY = 8, FT_ODDCOLS = 16, FT_SOLVE_FULL = 32, FT_SOLVE_DEF = 64, FT_SOLVE_SWAP = 128, FT_HUGE = 256, FT_TALL = 512 };
 
 struct Interp {
   static const int NS = 4;
@@ -150,11 +150,22 @@ struct Interp {
   void solve_case(const MOp& op) {
     uint64_t x = op.seed;
     uint32_t q = 1 + op.a % 70, p = q + op.b % 11, L = 1 + op.c % 40;
+    // tall systems now and then: more rows than 16-bit (and more than 15-bit) indices can hold
+    if ((op.d / 24) % 24 == 0) { q = 1 + op.a % 8; p = ((op.d / 576) % 2 ? 32760u : 65530u) + op.b % 20; L = 1 + op.c % 3; }
     int flavour = (int)(op.d % 6);  // 0-2 full rank, 3 dependent column, 4 zero column, 5 duplicate rows only (p may stay full)
     std::vector<std::vector<uint8_t>> A(p, std::vector<uint8_t>(q, 0));
     for (uint32_t i = 0; i < q; i++) A[i][i] = 1;
     if (flavour == 1) for (uint32_t i = 0; i < q; i++) for (uint32_t j = i + 1; j < q; j++) A[i][j] = (uint8_t)(splitmix(x) & 1);
-    uint32_t nops = flavour == 2 ? 4 * p : (flavour == 0 ? p / 2 : 2 * p);
+    bool tall = p > 30000;
+    if (tall) {
+      v.features |= FT_TALL;
+      // rows below the identity: random combinations of the unknowns (some left empty), then the identity rows
+      // are scattered over the whole height so that pivots and eliminations involve rows of any index
+      uint32_t dens = 1 + (uint32_t)(splitmix(x) % 3);
+      for (uint32_t i = q; i < p; i++) if (splitmix(x) % 4) for (uint32_t c = 0; c < q; c++) A[i][c] = (uint8_t)(splitmix(x) % 4 < dens);
+      for (uint32_t i = 0; i < q; i++) { uint32_t j = (splitmix(x) & 1) ? p - 1 - (uint32_t)(splitmix(x) % 40) : (uint32_t)(splitmix(x) % p); std::swap(A[i], A[j]); }
+    }
+    uint32_t nops = tall ? 64 : (flavour == 2 ? 4 * p : (flavour == 0 ? p / 2 : 2 * p));
     for (uint32_t t = 0; t < nops; t++) {
       uint32_t i = (uint32_t)(splitmix(x) % p), j = (uint32_t)(splitmix(x) % p);
       if (i == j) continue;
@@ -218,6 +229,10 @@ struct Interp {
       case S_ALLOC: {
         uint32_t r = 1 + op.b % 40, c = 1 + op.c % 40;
         if (op.d % 16 == 1) { r = 1; c = 2000; } else if (op.d % 16 == 2) { r = 2000; c = 1; }
+        else if (op.d % 64 == 3) {  // dimensions around 2^16: the cell count crosses 2^32 (nothing in the module may depend on it)
+          static const uint32_t hd[5] = {32768, 65535, 65536, 65537, 131072};
+          r = hd[op.b % 5]; c = hd[op.c % 5]; v.features |= FT_HUGE;
+        }
         sp_alloc(i, r, c);
       } break;
       case S_INSERT: case S_FIND: case S_DELETE: {
@@ -305,6 +320,7 @@ struct Interp {
       } break;
       case S_TO_DENSE: {
         SP& s = sp[i]; if (!s.m) return;
+        if ((uint64_t)s.rows * s.cols > (1u << 22)) return;  // a dense copy of that size is not affordable
         at::at_tag = 250;
         void* d = shp_dn_alloc(s.rows + op.b % 3, s.cols + op.c % 35);
         // pre-fill so that "clear" is observable
@@ -318,7 +334,8 @@ struct Interp {
       } break;
       case S_FROM_DENSE: {
         SP& s = sp[i]; if (!s.m) return;
-        uint32_t r0 = 1 + op.b % s.rows, c0 = 1 + op.c % s.cols;
+        uint32_t r0 = 1 + op.b % std::min<uint32_t>(s.rows, 2000), c0 = 1 + op.c % std::min<uint32_t>(s.cols, 2000);
+        if ((uint64_t)r0 * c0 > 4000) { if (r0 > c0) r0 = 1 + r0 % 60; else c0 = 1 + c0 % 60; if ((uint64_t)r0 * c0 > 4000) { r0 = 1 + r0 % 60; c0 = 1 + c0 % 60; } }
         at::at_tag = 250;
         void* d = shp_dn_alloc(r0, c0);
         std::set<std::pair<uint32_t, uint32_t>> nm;
@@ -437,7 +454,7 @@ static Seq generate(const std::string& prop, Chooser& ch, bool thorough) {
 
 static Stats st;
 static bool nontrivial(const std::string& prop, uint64_t f) {
-  if (prop == "C17") return (f & (FT_DEL_INS | FT_CLEAR_INS | FT_BIG | FT_COPY_NONEMPTY)) != 0;
+  if (prop == "C17") return (f & (FT_DEL_INS | FT_CLEAR_INS | FT_BIG | FT_COPY_NONEMPTY | FT_HUGE)) != 0;
   return (f & (FT_ODDCOLS | FT_SOLVE_SWAP | FT_SOLVE_DEF)) != 0;
 }
 static Verdict run_one(const std::string& prop, const Seq& s, bool count) {
@@ -445,8 +462,8 @@ static Verdict run_one(const std::string& prop, const Seq& s, bool count) {
   Verdict v = in.run(s);
   if (count) {
     st.evaluations++;
-    static const char* fn[] = {"delete_then_insert", "clear_then_insert", ">1024_entries", "copy_into_nonempty", "cols_not_multiple_of_32", "solve_full_rank", "solve_rank_deficient", "solve_needs_row_swap"};
-    for (int b = 0; b < 8; b++) if (v.features & (1ull << b)) st.feature_counts[fn[b]]++;
+    static const char* fn[] = {"delete_then_insert", "clear_then_insert", ">1024_entries", "copy_into_nonempty", "cols_not_multiple_of_32", "solve_full_rank", "solve_rank_deficient", "solve_needs_row_swap", "dimensions_around_2^16", "solve_tall_system"};
+    for (int b = 0; b < 10; b++) if (v.features & (1ull << b)) st.feature_counts[fn[b]]++;
     st.classes[!s.empty() && s[0].kind == X_SOLVE ? (s.size() == 1 ? "solver" : "solver_sequence") : (prop == "C17" ? "sparse_sequence" : "dense_sequence")]++;
     if (nontrivial(prop, v.features)) { st.nontrivial++; std::string t = seq_text(s); if (st.distinct.insert(hash_text(t)).second && st.samples.size() < 5 && st.distinct.size() % 211 == 1) st.samples.push_back(t.size() > 1500 ? t.substr(0, 1500) + "..." : t); }
   }
@@ -538,7 +555,7 @@ int main(int argc, char** argv) {
   CurCase cur; if (!curp.empty()) cur.open(curp);
   st.rule = prop == "C17"
     ? "generated sequences (<= 60 operations, 120 thorough) over a pool of 4 sparse matrices (1..40 x 1..40, plus 1x2000 / 2000x1): allocate, insert (new / existing), find, delete, bulk insert (up to 1600 entries: crosses the 1024-entry block), bulk delete, clear, copy, copyrows, copycols, the _opt variants and copy_filled_matrix into fresh destinations, sparse->dense, dense->sparse, emptiness/weight queries, free; after every operation every live matrix is traversed by rows and by columns, links are checked and find is compared with the set model; non-trivial = delete->insert, clear->insert, > 1024 live entries, or copy into a non-empty destination; distinct = distinct operation sequence text"
-    : "generated sequences over a pool of 4 dense matrices (1..70 rows, column counts emphasising 31,32,33,63,64,65,96,97): set/get/flip, clear, fill, copy, copyrows, copycols (equal row counts), xor_rows, weights (row, column, emptiness, ignore_first at multiples of 32), free, compared cell by cell with a plain bit-matrix model after every operation; solver cases: p x q systems (q 1..70, p-q 0..10) of constructed rank (full: random row operations on [I;0]; deficient: dependent / zero column / duplicated row), random symbols of 1..40 bytes, rhs = A x, 1-3 solves per case on a fresh or on one reused control block, earlier solutions optionally retained and re-checked; popcount helpers over all 16-bit patterns in every 16-bit position, structured words (all-ones, alternating, one bit clear) and random words; non-trivial = column count not a multiple of 32, or solver needing a row swap, or rank-deficient system; distinct = distinct sequence text";
+    : "generated sequences over a pool of 4 dense matrices (1..70 rows, column counts emphasising 31,32,33,63,64,65,96,97): set/get/flip, clear, fill, copy, copyrows, copycols (equal row counts), xor_rows, weights (row, column, emptiness, ignore_first at multiples of 32), free, compared cell by cell with a plain bit-matrix model after every operation; solver cases: p x q systems (q 1..70, p-q 0..10; one case in 24 is tall: q 1..8 and p around 2^15 or 2^16 rows) of constructed rank (full: random row operations on [I;0]; deficient: dependent / zero column / duplicated row), random symbols of 1..40 bytes, rhs = A x, 1-3 solves per case on a fresh or on one reused control block, earlier solutions optionally retained and re-checked; popcount helpers over all 16-bit patterns in every 16-bit position, structured words (all-ones, alternating, one bit clear) and random words; non-trivial = column count not a multiple of 32, or solver needing a row swap, or rank-deficient system; distinct = distinct sequence text";
   Seq fseq;
   if (prop == "C18" && worker == 0) { popcounts(failed, fsig, fmsg, frp); st.classes["popcount"] += 1; }
   uint64_t shrink_execs = 0;
